@@ -133,7 +133,7 @@ fn main() {
     let out = arg(&args, "--out").map(str::to_string);
     let resume_after: u64 = arg(&args, "--resume-after").and_then(|s| s.parse().ok()).unwrap_or(0);
     ctx::install_panic_hook();
-    ctx::start_watchdog(if tier == Tier::Quick { 90 } else { 400 }, if tier == Tier::Quick { 20 } else { 60 });
+    ctx::start_watchdog(if tier == Tier::Quick { 90 } else { 400 }, if tier == Tier::Quick { 30 } else { 120 });
     if cmd == "replay" {
         // each line: {"prop": "...", "scenario": {...}}
         let file = arg(&args, "--file").expect("--file");
